@@ -1568,6 +1568,57 @@ class RepairMissing(FnSpec):
         ]
 
 
+class FreshUuid(FnSpec):
+    """fresh_uuid(): a uuid no link uses, reserved at once (termination is not claimed)"""
+
+    file = "container/interface.py"
+    qual = "TOCLinks.fresh_uuid"
+    props = ("C06",)
+
+    def init(self):
+        from pyvc.containers import TOpt
+
+        self.TOS = TOpt(STR)
+        self.bindings["uuid1"] = lambda cx: UuidV(z3.Const(fresh_name("uuid1"), UU))
+
+        def inv(cx, env, it):
+            a = cx.ghost["fu"]
+            tp = a.self.fields["_toc_path"]
+            fresh = env["fresh"]
+            ft = fresh.t if isinstance(fresh, SBool) else z3.BoolVal(bool(fresh))
+            out = [("table-untouched-while-searching", tp.same(cx, a.tp0))]
+            ret = env.lookup("ret") if hasattr(env, "lookup") else None
+            if isinstance(ret, UuidV):
+                out.append(("a-candidate-accepted-is-unused", z3.Implies(ft, z3.Not(tp.has(ret.t)))))
+            else:
+                out.append(("no-candidate-yet-means-not-accepted", z3.Not(ft)))
+            return out
+
+        self.loops[0] = LoopSpec(inv, modifies=["ret", "fresh"], bound_by_first_iteration={"ret": lambda cx: UuidV(z3.Const(fresh_name("candidate"), UU))})
+
+    def setup(self, cx):
+        o = SObj("TOCLinksFresh", name="self")
+        tp = SMap.fresh(TUuid(), self.TOS, "toc_path")
+        o.fields["_toc_path"] = tp
+        a = A(self=o)
+        a.tp0 = tp.snapshot()
+        cx.ghost["fu"] = a
+        return a
+
+    def raises(self, cx, a):
+        return {}
+
+    def ensures(self, cx, a, res):
+        tp = a.self.fields["_toc_path"]
+        if not isinstance(res, UuidV):
+            return [("a-uuid", z3.BoolVal(False), "")]
+        k = z3.Const(fresh_name("fk"), UU)
+        return [
+            ("not-in-use-before", z3.Not(a.tp0.has(res.t)), "the uuid handed out is not the uuid of any link known to the container"),
+            ("reserved-and-nothing-else-changed", z3.ForAll([k], z3.And(tp.has(k) == z3.Or(a.tp0.has(k), k == res.t), z3.Implies(a.tp0.has(k), tp.get_term(k) == a.tp0.get_term(k)))), "it is reserved in the table at once (a second call cannot hand it out again); all other entries are untouched"),
+        ]
+
+
 def add_tocreg(reg):
     reg.set_class_home("TOCPackages", "container/interface.py")
     reg.attr_bindings[("PkgInfo", "plugins")] = lambda cx, o: PluginsStub(o.t)
@@ -1575,11 +1626,12 @@ def add_tocreg(reg):
     reg.method_bindings[("TocSchemasStub", "_unregister")] = lambda cx, o, ref: cx.effect("schemas-unregister", ref)
     reg.set_class_home("TOCLinks", "container/interface.py")
     reg.set_class_home("TOCLinksRepair", "container/interface.py", "TOCLinks")
+    reg.set_class_home("TOCLinksFresh", "container/interface.py", "TOCLinks")
     reg.attr_bindings[("PkgInfo", "name")] = lambda cx, o: SStr(INFO_NAME(o.t))
     reg.attr_bindings[("PkgInfo", "version")] = lambda cx, o: VER.wrap(INFO_VER(o.t))
     reg.attr_bindings[("SchemaRef", "name")] = lambda cx, o: SStr(REF_NAME(o.t))
     reg.attr_bindings[("SchemaRef", "version")] = lambda cx, o: VER.wrap(REF_VER(o.t))
-    specs = [AddProviders(), PkgRegister(), PkgUnregister(), SchemaRegister(), SchemaUnregister(), LinksRegister(), LinksUnregister(), LinksUpdate(), SchemasInit(), PackagesInit(), LinksInit(), RepairMissing()]
+    specs = [AddProviders(), PkgRegister(), PkgUnregister(), SchemaRegister(), SchemaUnregister(), LinksRegister(), LinksUnregister(), LinksUpdate(), SchemasInit(), PackagesInit(), LinksInit(), RepairMissing(), FreshUuid()]
     for s in specs:
         reg.add(s)
     return specs
